@@ -9,6 +9,11 @@ from standins.vocab import MONTHS, all_codes, info_of, single_meaning_names
 FORMATS = [("%d %B %Y", "{d:02d} {name} {y}"), ("%B %d, %Y", "{name} {d:02d}, {y}"),
            ("%d %b %Y %H:%M", "{d:02d} {name} {y} 07:41")]
 
+# literal separators between the directives (the format keeps them, so the translated string must):
+# checked for the first names of every locale
+SEP_FORMATS = [("%y %B %d | %H:%M", "15 {name} {d:02d} | 07:41"), ("%d %B %Y|%H:%M", "{d:02d} {name} {y}|07:41"),
+               ("%d %B %Y @ %H:%M", "{d:02d} {name} {y} @ 07:41"), ("%Y; %B; %d", "{y}; {name}; {d:02d}")]
+
 
 def work(job):
     import dateparser
@@ -39,6 +44,25 @@ def work(job):
             if r != want:
                 bad.append((code, name, fmt, s, repr(r), repr(want)))
                 break
+    failed = set(b[1] for b in bad)  # names that already fail with the plain formats: reported once
+    for key, name in names[:2] if tier == "quick" else names[:6]:
+        if name in failed:
+            continue
+        mi = MONTHS.index(key) + 1
+        for fmt, tpl in SEP_FORMATS:
+            s = tpl.format(d=17, name=name, y=2015)
+            n += 1
+            try:
+                r = dateparser.parse(s, date_formats=[fmt], **kw)
+            except Exception as e:
+                r = "raised %s" % type(e).__name__
+            want = datetime.datetime(2015, mi, 17, 7 if "%H" in fmt else 0, 41 if "%H" in fmt else 0)
+            try:
+                want = datetime.datetime.strptime(s, fmt)
+            except ValueError:
+                pass
+            if r != want:
+                bad.append((code, name + " " + fmt, fmt, s, repr(r), repr(want)))
     return n, len(names), bad
 
 
